@@ -498,7 +498,7 @@ Definition srun_reduce (cfg : config) (p : pz) (r : reducer) (live : bool) : rob
   | ROne => let '(o, _, ev) := sone cfg live s in (obs_val o, ev)
   | RSum => let '(o, _, ev) := sreduce (sred_fuel s) live Z.add 0 s in
             (obs_val (match o with Item x => Item [x] | _ => pass o end), ev)
-  | REqualSelf => (RBad, [])                       (* package stream has no Equal *)
+  | REqualSelf | REqual _ => (RBad, [])            (* package stream has no Equal *)
   end.
 
 Definition run_stream_cfg (cfg : config) (p : pz + pl) (prog : program) : run_obs :=
